@@ -73,6 +73,12 @@ type Pool interface {
 	// "Mark and Sweep".
 	Mark(v Value, flags MarkFlags)
 
+	// Marked returns true if v is currently marked in this pool, i.e. Mark
+	// was called with it and it has not been extracted since.  A value should
+	// be marked in one pool only: the Golua Runtime uses this to find the
+	// pool of an enclosing context which already looks after a value.
+	Marked(v Value) bool
+
 	// ExtractPendingFinalize returns all marked values which are no longer reachable
 	// and haven't been returned yet, so that some finalizing code can be run
 	// with them.  The returned values are ordered in reverse order of marking
